@@ -653,9 +653,9 @@ func bsConfigs(c *Ctx) []bsConfig {
 		}
 	}
 	if c.Thorough() {
-		return []bsConfig{{"tiny", 6, true, 0}, {"small", 4, false, 0}, {"small", 3, true, 0}, {"lists", 4, false, 0}, {"lists", 3, true, 0}, {"quotes", 3, true, 0}, {"leaves", 3, false, 0}, {"leaves", 2, true, 0}, {"wide", 2, true, 0}, {"html", 3, true, 0}, {"tabs", 2, false, 0}, {"tabs2", 3, false, 0}, {"refs", 3, true, 0}, {"scaled", -1, false, 0}}
+		return []bsConfig{{"tiny", 6, true, 0}, {"small", 4, false, 0}, {"small", 3, true, 0}, {"lists", 4, false, 0}, {"lists", 3, true, 0}, {"quotes", 3, true, 0}, {"leaves", 3, false, 0}, {"leaves", 2, true, 0}, {"wide", 2, true, 0}, {"html", 3, true, 0}, {"tabs", 2, false, 0}, {"tabs2", 3, false, 0}, {"refs", 3, true, 0}, {"scaled", -1, false, 0}, {"fencetabs", 4, false, 0}}
 	}
-	return []bsConfig{{"tiny", 4, true, 0}, {"small", 3, false, 0}, {"small", 2, true, 0}, {"lists", 3, false, 0}, {"quotes", 2, true, 0}, {"leaves", 2, false, 0}, {"html", 2, true, 0}, {"tabs2", 2, false, 0}, {"refs", 2, true, 0}, {"scaled", 0, false, 0}}
+	return []bsConfig{{"tiny", 4, true, 0}, {"small", 3, false, 0}, {"small", 2, true, 0}, {"lists", 3, false, 0}, {"quotes", 2, true, 0}, {"leaves", 2, false, 0}, {"html", 2, true, 0}, {"tabs2", 2, false, 0}, {"refs", 2, true, 0}, {"scaled", 0, false, 0}, {"fencetabs", 3, false, 0}}
 }
 
 func bsSimConfigs(c *Ctx) []bsConfig {
